@@ -429,7 +429,14 @@ def confirm_dwarf(vio, pid):
         elif key.split('[')[0] in ('dwarf.low_pc', 'dwarf.high_pc', 'dwarf.seq_base'):
             ok.append(summ.get('subprogram_mismatches', 0) > 0 or summ.get('row_mismatches', 0) > 0)
         else:
-            ok.append(summ.get('row_mismatches', 0) > 0 or summ.get('rows_lost_non_nop', 0) > 0 or summ.get('subprogram_mismatches', 0) > 0)
+            gc_run = bool(opts.get('gc'))
+            if key.endswith('.lost'):
+                # rows of an emitted function disappeared (after gc, rows of removed functions are expected to go)
+                ok.append((not gc_run) and summ.get('rows_lost_non_nop', 0) > 0)
+            elif key == 'dwarf.dead-maps':
+                ok.append(summ.get('row_mismatches', 0) > 0)
+            else:
+                ok.append(summ.get('row_mismatches', 0) > 0)
     path = replay.save_witness(pid, vio['key'], {'route': 'dwarf', 'what': vio['what'], 'script': dict({'spec': J, 'version': 4, 'gc': False}, **opts), 'native': res})
     vio['replay'] = path
     if all(x is True for x in ok):
